@@ -221,6 +221,9 @@ def _gen_spec(rng: Rng, want_mc, min_ports, profile, mc_triggers=False) -> dict:
     ports = []
     n_prov = rng.weighted([(1, 0), (5, 1), (4, 2), (2, 3)])
     n_req = rng.weighted([(2, 0), (4, 1), (4, 2), (2, 3)])
+    if profile == 'many_ports':
+        n_prov = rng.between(2, 5)
+        n_req = rng.between(2, 6)
     n_inj = rng.weighted([(6, 0), (3, 1), (1, 2)])
     if want_mc and n_prov == 0:
         n_prov = 1
